@@ -52,8 +52,23 @@ let do_initlin (txt : string) : string =
      | _ -> "REJECT")
   | _ -> "PARSE-ERR"
 
+(* coreaccept: the premises of determinism_core_accept (proofs/DeterminismAccept.v), all computed on the
+   SOURCE program: no assumed names, rt_syn_ok, core_src_b.  By init_linear_accept these imply
+   init_linear of the checker's output; the decision init_linear_b is printed next to it. *)
+let do_coreaccept (txt : string) : string =
+  match parse_string (explode txt) with
+  | POk p ->
+    (match typecheck p with
+     | Accept p' ->
+       if in_fragment_b p' && rt_syn_ok p && core_src_b p
+       then (if init_linear_b p' then "ACC-IN\tlin=1" else "ACC-IN\tlin=0")
+       else (if in_fragment_b p' && init_linear_b p' then "ACC-OUT\tlin=1" else "ACC-OUT\tlin=0")
+     | _ -> "REJECT")
+  | _ -> "PARSE-ERR"
+
 let () =
   register "fjclass" do_fjclass;
+  register "coreaccept" do_coreaccept;
   register "initlin" do_initlin;
   List.iter (fun (nm, md) ->
       List.iter (fun seed -> register (Printf.sprintf "compat-%s-%d" nm seed) (do_compat md seed)) [0; 1; 2; 3; 4; 5; 6; 7])
